@@ -51,6 +51,10 @@ struct Case {
     /// section: '1' allocate (leak), 'b' allocate and free, 'f' free a block allocated before the
     /// run, 's' shrink a vector grown before the run, '0' nothing
     mask: Vec<Vec<u8>>,
+    /// no explicit sample_size: the sampling loop tunes it (1, 2, 4, ...) until one sample
+    /// outlasts 100 x the timer precision; every call costs `cost` virtual ticks
+    tune: bool,
+    cost: u64,
 }
 
 fn parse_case(line: &str) -> Case {
@@ -69,6 +73,8 @@ fn parse_case(line: &str) -> Case {
         hang_ms: 4000,
         test: false,
         mask: vec![],
+        tune: false,
+        cost: 0,
     };
     for tok in line.split(' ') {
         let Some((k, val)) = tok.split_once('=') else { continue };
@@ -87,6 +93,8 @@ fn parse_case(line: &str) -> Case {
             "skipext" => c.skipext = val == "1",
             "hang_ms" => c.hang_ms = val.parse().unwrap(),
             "test" => c.test = val == "1",
+            "tune" => c.tune = val == "1",
+            "cost" => c.cost = val.parse().unwrap(),
             "mask" => c.mask = val.split(',').filter(|m| !m.is_empty()).map(|m| m.as_bytes().to_vec()).collect(),
             "fault" => {
                 if val != "none" {
@@ -188,6 +196,26 @@ impl Ctx {
         (t, idx)
     }
 
+    /// (round, index within the round) of a thread's idx-th generator call / benchmarked call.
+    /// Tuned runs: sizes 1, 2, 4, ... doubling while size * cost + 1 ticks <= 100 x precision (1 tick).
+    fn round_of(&self, idx: u64) -> (u64, u64) {
+        if !self.case.tune {
+            let n = self.case.n as u64;
+            return (idx / n, idx % n);
+        }
+        let (mut r, mut size, mut start) = (0u64, 1u64, 0u64);
+        loop {
+            if idx < start + size {
+                return (r, idx - start);
+            }
+            start += size;
+            r += 1;
+            if size * self.case.cost + 1 <= 100 {
+                size *= 2;
+            }
+        }
+    }
+
     /// What thread t does in the calls of round r.
     fn behaviour(&self, t: u64, r: u64) -> u8 {
         match self.case.mask.len() {
@@ -208,21 +236,25 @@ impl Ctx {
 
     fn gen(&self) {
         let (t, idx) = self.point(EV_GEN, 'g', &GEN_CNT);
-        self.noise(t, idx / self.case.n as u64, 7777);
+        self.noise(t, self.round_of(idx).0, 7777);
     }
 
     fn call(&self) {
         let (t, idx) = self.point(EV_CALL, 'c', &CALL_CNT);
-        let n = self.case.n as u64;
-        let r = idx / n;
+        let (r, k) = self.round_of(idx);
+        if self.case.tune {
+            // the call budget is the watchdog of a tuning that does not end
+            assert!(idx < 4096, "call budget exhausted: tuning does not end");
+            v::vclock_advance(self.case.cost);
+        }
         match self.behaviour(t, r) {
             b'1' => {
-                let v = Vec::<u8>::with_capacity(asize(t, r, idx % n));
+                let v = Vec::<u8>::with_capacity(asize(t, r, k));
                 std::hint::black_box(&v);
                 std::mem::forget(v);
             }
             b'b' => {
-                let v = Vec::<u8>::with_capacity(asize(t, r, idx % n));
+                let v = Vec::<u8>::with_capacity(asize(t, r, k));
                 std::hint::black_box(&v);
                 drop(v);
             }
@@ -358,7 +390,7 @@ fn run_bench(case: &Case) -> v::RunDump {
     let mut options = divan::__private::BenchOptions::default();
     options.sample_count = Some(case.sample_count);
     // under Action::Test the options must be ignored: one call per thread (the case line says n=1)
-    options.sample_size = Some(if case.test { 3 } else { case.n });
+    options.sample_size = if case.tune { None } else { Some(if case.test { 3 } else { case.n }) };
     options.skip_ext_time = Some(case.skipext);
     let cfg = v::RunConfig {
         options: &options,
